@@ -37,6 +37,7 @@ Inductive fop :=
 | FSave
 | FRollback
 | FOpen (skip : bool)            (* a new tree object on the same database, then Load() *)
+| FOpenAt (skip : bool) (v : Z)  (* a new tree object, then LoadVersion(v) WITHOUT Load() first *)
 | FLoad (v : Z)
 | FLvfo (v : Z)
 | FPrune (n : Z)
@@ -173,6 +174,17 @@ Section FastLife.
          | XOk => enable_if_needed st1
          | _ => st1
          end, x)
+    | FOpenAt skip v =>
+        (* nothing is loaded or cached in the new object: LoadVersion(v) runs on it directly and
+           is the first to compare the label with the latest version *)
+        let fresh := MState None 0 None (forest (ms st)) (init_ver (ms st))
+                            (init_opt (ms st)) (init_opt (ms st)) in
+        let st0 := FS fresh (fidx st) (dlabel st) (dlabel st) skip [] [] in
+        let (s', x) := step H fresh (OLoad v) in
+        (match x with
+         | XInt _ => enable_if_needed (with_ms st0 s')
+         | _ => with_ms st0 s'
+         end, x)
     | FLoad v =>
         let (s', x) := step H (ms st) (OLoad v) in
         (match x with
@@ -266,6 +278,7 @@ Section FastLife.
     | FSave => OSave
     | FRollback => ORollback
     | FOpen _ => OReopen
+    | FOpenAt _ v => OLoad v        (* preceded by OReopen: see [logical_ops] *)
     | FLoad v => OLoad v
     | FLvfo v => OLvfo v
     | FPrune n => OPrune n
@@ -274,5 +287,14 @@ Section FastLife.
     | FGetVersioned k v => OGetVersioned k v
     | FIter => ORead TWorking (RIter None None false true)
     | FIterImm v => ORead (TVersion v) (RIter None None false true)
+    end.
+
+  (** the logical operations behind each [fop]: a new tree object that loads version [v] directly
+      reaches the state MTree reaches by reopening (which loads the latest version) and then
+      loading [v] *)
+  Definition logical_ops (o : fop) : list op :=
+    match o with
+    | FOpenAt _ v => [OReopen; OLoad v]
+    | _ => [logical o]
     end.
 End FastLife.
